@@ -199,7 +199,9 @@ is_polymorphic() const {
   if (_type == T_union) {
     return false;
   }
-  return check_virtual();
+  // A deleted virtual destructor is not in the list of virtual functions,
+  // but still makes the class polymorphic.
+  return check_virtual() || has_virtual_destructor();
 }
 
 /**
